@@ -6,9 +6,10 @@ CONSTANTS Keys = {1, 2, 3}
           IsSet = FALSE
           None <- NoneZero
           Rej = FALSE
+          Nones = {0}
           EK = 0
 VIEW View
 ACTION_CONSTRAINT DumpT
 INVARIANTS Bounded NoDup DomOK SetOK RefuseOK
-PROPERTIES FirstAtHead LastAtTail PlainAppends PlainKeeps UpdateKeepsKeys OthersKeepOrder EvictOpposite NoOverNeverEvicts SortPermutes RemoveExact PutThenGet LRUMoves
+PROPERTIES FirstAtHead LastAtTail PlainAppends PlainKeeps UpdateKeepsKeys OthersKeepOrder EvictOpposite NoOverNeverEvicts SortPermutes RemoveExact PutThenGet LRUMoves NoneIsInert
 CHECK_DEADLOCK FALSE
